@@ -65,6 +65,15 @@ def run(ctx):
               "self.nboxes[level]", "self.boxes[level]['state_offsets']", "state_bin_box_ids", "mp_args", True)]
     for rel, q, tab, n, offs, mp, tasks, srt in specs:
         taskmaps.map_and_tasks(ctx, P, prog.func(rel, q, P), tab, n, offs, mp, tasks, srt)
+    # P4 for combine's task generators: distinct output file per task of one pool call
+    from checks import C06
+    for q in ("PlotfileCooker.by_binfile_output", "PlotfileCooker.by_matched_offsets_output"):
+        g = prog.func("amr_kitchen/plotfile_cooker.py", q, P)
+        pl, _forms = C06.generator_order(ctx, g)
+        if pl is None:
+            ctx.unknown(f"{P}.P4", g.site, "per-file task loop of the generator not recognised", key="bfile_w")
+        else:
+            C06.generator_p4(ctx, P, g, pl)
     # whip: levels strictly sequential around the unordered pool (P1b barrier)
     wm = prog.func("amr_kitchen/whip/cli.py", "main", P)
     for s in by_fn.get(wm.site, []):
